@@ -2,15 +2,53 @@
 """Regenerates MANIFEST.json from the table below (run after adding a check)."""
 import json, os, subprocess
 
-HOOK_COMMITS = ["d1f6e81"]
+HOOK_COMMITS = ["d1f6e81"]  # /repo commit adding verif_export.go and internal/rle/verif_state.go
 
 # id -> (level category, technique, text, note, design_ref)
 CHECKS = {
+ "C01": ("exploration", "bounded exhaustive input/configuration enumeration on the real generated code",
+   "Every record sequence over a structural alphabet x every partition into Write batches x every page size x codec (plus optional-bool packing, value extremes, run-structured long inputs and every record structure up to a node bound) is written and read back by the real generated code; nothing is sampled, so every failure below the bounds is found.",
+   "Values outside the alphabets and sizes beyond the bounds are not covered; equality is nil==empty slice, floats by bits.", "4/C01"),
+ "C02": ("exploration", "bounded exhaustive enumeration + independent reference validator",
+   "Every file of C01's exhaustive families plus nested/same-named-group shapes is parsed by an independent reference implementation that follows the footer's offsets and separately walks the file from byte 4; all footer and page-header claims are compared with the bytes.",
+   "The reference parser (mc/refpq) is the trusted oracle; lenient where the property is silent (file_offset, encodings list, total_byte_size compressed or uncompressed).", "4/C02"),
+ "C03": ("exploration", "exhaustive structure enumeration vs reference Dremel striping",
+   "Every nil/non-nil and list-length combination up to a node bound, singly and in ordered pairs, is written; the levels and values the reference parser decodes per column are compared with the Dremel paper's striping, and a specification-only assembly must return the records.",
+   "Catalogue shapes only (others under C05); reference striping pinned to the Dremel paper example.", "4/C03"),
+ "C04": ("exploration", "deviation-bounded enumeration of physical encodings by an independent writer",
+   "For fixed logical content an independent writer emits every file within <= d deviations from a baseline physical plan (all legal level run plans, page splits, codecs, snappy stream shapes, optional thrift content) and the generated reader must return the records; d=1 exhaustive, d=2 over a reduced set, plus long run families.",
+   "Foreign writer and reference parser cross-checked on every file; snappy/gzip libraries trusted; zero padding bits.", "4/C04"),
+ "C06": ("model_checking", "explicit-state exploration of the writer API (all Add/Write histories to a depth bound) against a list-of-batches model",
+   "Every history over {Add, Write} up to length L, with Close applied at every state, for every page size 1..k and codec, is executed on the real writer and compared with a list-of-batches reference model (file validity, row groups, per-row-group contents, reader output).",
+   "Histories beyond L are not explored; every model trace is executed on the implementation.", "4/C06"),
+ "C07": ("model_checking", "breadth-first search of the real RLE encoder's control state + exhaustive sequence/plan enumeration with a strict specification decoder",
+   "BFS over the encoder's control state (reaching the 63-group closure 504 values deep), every level sequence up to a per-width length bound, run-structured families at every alignment, and the library decoder on every legal run plan of every short sequence.",
+   "State abstraction argued in DESIGN.md; bit-level packing is decided completely by C17.", "4/C07"),
+ "C08": ("fault_enumeration", "deviation-bounded enumeration of the source's Read answers",
+   "Every fixed chunk size, every single short read at every call index (pairs in thorough), data-with-EOF, with and without io.ByteReader: the reader must return the same records.",
+   "Short reads deliver >= 1 byte.", "4/C08"),
+ "C09": ("fault_enumeration", "exhaustive enumeration of the failing sink call index",
+   "For every workload and codec, every index k of the failing sink Write call, four fault kinds (pairs in thorough): the API call during which it failed must return an error.",
+   "The caller abandons the writer after the first error.", "4/C09"),
+ "C10": ("fault_enumeration", "exhaustive enumeration of the failing source call index",
+   "For every workload and codec, every index k of the failing Read/Seek/ReadByte call, three error kinds, transient/sticky/with-data (pairs in thorough): error reported or all rows correct, never a panic.",
+   "Rows delivered before a reported error are not judged.", "4/C10"),
+ "C11": ("fault_enumeration", "exhaustive enumeration of truncation points",
+   "Every strict prefix of every workload file is opened and iterated: an error must be reported, no panic.",
+   "Prefixes that are themselves complete valid files are excluded by construction and re-validated.", "4/C11"),
+ "C12": ("exploration", "exhaustive ordered page contents over per-type alphabets vs reference page decode",
+   "Every ordered page content up to length m over each type's alphabet with nulls interleaved, for all 24 column kinds and nested contexts: null_count exact, min/max (when present) bound every value in the type's order.",
+   "Absent min/max accepted.", "4/C12"),
+ "C16": ("exploration", "bounded exhaustive file enumeration vs independent parser, field-by-field",
+   "ReadMetaData, PageHeaders and PageHeadersAtOffset (every chunk start and every page start) are compared field by field with the reference parser's footer tree and sequential walk over the exhaustive file families.",
+   "Library-written files only.", "4/C16"),
  "C17": ("exploration", "complete enumeration of the finite domain on the real code",
    "Every one of the 2^8+2^16+2^24+2^32 value groups / byte groups of width 1-4 is pushed through the real internal/bitpack and compared with the specification's LSB-first little-endian layout and both round trips; the domain is finite, so this is a complete decision, not a bound.",
    "Trusts the closed-form layout oracle (self-checked against a bit-by-bit packer) and the thin verif-tag re-export wrappers.", "4/C17"),
+ "C18": ("exploration", "exhaustive placement of one unsupported feature at every (row group, column, page) of valid foreign files",
+   "Every unsupported page type, value encoding, level encoding and codec, genuinely encoded where feasible, at every position: the reader must report an error, never rows, never panic; negative controls must be accepted.",
+   "One feature per file.", "4/C18"),
 }
-
 PENDING = {}
 
 def main():
